@@ -234,11 +234,23 @@ def run(res, tier):
                message='C++ writes %s as %s, the documented wire format is %s' % (name, cpp.get(name), DOC[name]))
     # C mini: size function under each type code, reader import widths
     gsz = fx.fn1('GetMMessageFieldFlattenedSize')
+    # the type-code switch of the reader sits in MMUnflattenMessage or in a helper of the same file it forwards to
     mun = fx.fn1('MMUnflattenMessage')
     imp = {}
-    sw = [n for n in mun.walk() if n['k'] == 'SwitchStmt']
+    sw, todo, seen = [], [mun], set()
+    while todo and not sw:
+        g = todo.pop(0)
+        if g.id in seen:
+            continue
+        seen.add(g.id)
+        sw = [n for n in g.walk() if n['k'] == 'SwitchStmt' and any(y.is_call() and (y.get('q') or '') == 'ImportMMessageField' for y in n.walk())]
+        if not sw:
+            for y in g.walk():
+                h = fx.funcs.get(y.get('fn')) if y.is_call() else None
+                if h is not None and h.full and h.file == mun.file:
+                    todo.append(h)
     if not sw:
-        raise AnalysisBroken('MMUnflattenMessage: no switch over the type code')
+        raise AnalysisBroken('MMUnflattenMessage: no switch over the type code that imports field data (looked in %d function(s) of %s)' % (len(seen), mun.file))
     pending = []
     for c in sw[0].role('body')['ch']:
         x = c
